@@ -253,11 +253,15 @@ def cev(e):
     return '(TError %d%%nat %s %d%%nat)' % (e[1], cctx(e[2]), e[3])
 
 
-def encode(case, obs):
-    per = {'unset': 'PUnset', 'none': 'PNone'}.get(case['per']) if isinstance(case['per'], str) else '(PSome %s)' % cstrategy(case['per'])
-    script = clist(cattempt(model_attempt(a, case['req']), k) for k, a in enumerate(case['script']))
+def cobs(obs):
     fin = obs['final']
-    o = ('{| o_sends := %d%%nat; o_sleeps := %s; o_final := Some %s; o_events := %s |}'
-         % (obs['sends'], clist(cq(Fraction(s)) for s in obs['sleeps']), cattempt(fin[0], fin[1]), clist(cev(e) for e in obs['events'])))
+    return ('{| o_sends := %d%%nat; o_sleeps := %s; o_final := Some %s; o_events := %s |}'
+            % (obs['sends'], clist(cq(Fraction(s)) for s in obs['sleeps']), cattempt(fin[0], fin[1]), clist(cev(e) for e in obs['events'])))
+
+
+def encode(case, obs):
+    per = {'unset': 'RUnset', 'none': 'RNone'}.get(case['per']) if isinstance(case['per'], str) else '(RSome %s)' % cstrategy(case['per'])
+    script = clist(cattempt(model_attempt(a, case['req']), k) for k, a in enumerate(case['script']))
+    o = cobs(obs)
     return ('{| c_client := %s; c_per := %s; c_jitter := %s; c_tracers := %d%%nat; c_supplied := %s; c_script := %s; c_obs := %s |}'
             % (copt(case['client'], cstrategy), per, clist(cq(j) for j in case['jitter']), case['tracers'], cbool(case['supplied']), script, o))
